@@ -7,6 +7,7 @@ TODO: Handle sys.argv
 
 import sys
 import io
+import ast
 import types
 from itertools import zip_longest
 from unittest.mock import patch
@@ -730,7 +731,7 @@ class Sandbox:
         """
         if isinstance(value, SandboxVariable):
             return value.name
-        if len(repr(value)) <= self.MAXIMUM_TEMPORARY_LENGTH:
+        if len(repr(value)) <= self.MAXIMUM_TEMPORARY_LENGTH and self._is_literal(repr(value)):
             return repr(value)
         key = '_temporary_{}_{}'.format(category, name)
         if key in self.data:
@@ -738,6 +739,17 @@ class Sandbox:
         self._temporary_variables.add(key)
         self.data[key] = value
         return key
+
+    @staticmethod
+    def _is_literal(value_repr):
+        """ Whether the given repr can be pasted into the call's source code
+        and evaluate back to the value (not true for e.g. ``inf``, ``nan``
+        or arbitrary objects, which have to be passed as temporaries). """
+        try:
+            ast.literal_eval(value_repr)
+        except (ValueError, SyntaxError, TypeError, MemoryError, RecursionError):
+            return False
+        return True
 
     def make_safe_variable(self, name):
         """
